@@ -929,6 +929,32 @@ func runClusterScenario(bin, scratch string, seed int64, sc clScenario) (rep clR
 				}
 				restart([]*clNode{n})
 			}
+		case "lag-then-all-kill":
+			// a follower goes down; the others cross the snapshot threshold and compact; then THEY are killed as well and everybody is
+			// restarted together: whoever becomes leader has itself just restarted from its snapshot and must bring the lagging
+			// node up to date (by a snapshot that carries the keyspace, not only its index)
+			if fs := followers(); len(fs) > 0 {
+				lag := fs[rng.Intn(len(fs))]
+				c.kill(lag)
+				note("SIGKILL follower %d (stays down)", lag.id)
+				before := c.countLog("compacted log at index")
+				for w := 0; w < 100 && sc.SnapCount > 0 && c.countLog("compacted log at index") < before+4; w++ {
+					time.Sleep(100 * time.Millisecond)
+				}
+				var ns []*clNode
+				for _, i := range rng.Perm(len(c.nodes)) {
+					if c.nodes[i].member && c.nodes[i] != lag {
+						ns = append(ns, c.nodes[i])
+					}
+				}
+				for _, n := range ns {
+					sleepR(0, 150)
+					c.kill(n)
+					note("SIGKILL node %d (rest of the cluster)", n.id)
+				}
+				sleepR(100, 600)
+				restart(append(ns, lag))
+			}
 		case "add-member":
 			nodesMu.Lock()
 			n, err := c.addNode(true)
